@@ -38,6 +38,9 @@ GATES = {"randombytes_init_if_needed": ("randombytes/randombytes.c::implementati
 LOCK_INTERNAL = {"sodium/core.c::locked", "sodium/core.c::_sodium_lock"}
 
 
+ALSO_PORTABLE = True
+
+
 def run(ctx, chk):
     prog = ctx.prog()
     cg = prog.callgraph()
